@@ -66,6 +66,7 @@ func createCmd(globalCfg *globalConfig, cfg *createConfig) error {
 		if err != nil {
 			return fmt.Errorf("failed to create big index writer: %w", err)
 		}
+		defer idx.Close()
 
 		iw = idx
 	} else {
